@@ -114,7 +114,7 @@ func Bound(name string, quick, thorough int) int {
 
 func Fault(site string) bool {
 	v, ok := lookup("fault:" + site)
-	return ok && v == "1"
+	return ok && (v == "1" || v == "true")
 }
 
 func Assume(cond bool) {
@@ -133,7 +133,8 @@ func Assert(cond bool, id string) {
 func Unreachable(id string)  { Assert(false, id) }
 func Stop()                  { panic(stopped{}) }
 func NoPanic(id string)      { cur.NoPanicID = id }
-func SetUnwind(n int)        {}
+func SetUnwind(n int) {}
+func SetMaxFaults(n int) {}
 func SetMaxSteps(n int)      {}
 func OpaqueNonlinear(b bool) {}
 
